@@ -30,7 +30,7 @@ TRUSTED = [
     "assumption of the theorems and is what the cross-configuration runs test; uint wrap-around of gen (2^64 gets); "
     "UnsafePool (tag safepool) observed only",
 ]
-THEOREMS = ["C14_pool_get_zeroed_right_size", "C14_pool_refines_fresh", "C14_pool_no_panic", "C14_contpool_refines_new",
+THEOREMS = ["C14_pool_get_zeroed_right_size", "C14_pool_refines_fresh", "C14_heap_pool_refines_fresh", "C14_pool_no_panic", "C14_contpool_refines_new",
             "C14_unlimited_manager_is_noop"]
 
 
@@ -172,7 +172,34 @@ def t_gocalls(rng):
                        "local o = setmetatable({}, mt) emit(o + o, o(42), tostring(nil), tostring(12))\n" % (n, n))
 
 
-TEMPLATES = [t_deep, t_tail, t_unwind, t_coro, t_closures, t_live, t_regsizes, t_varargs, t_gocalls]
+def t_reentrant(rng):
+    n = rng.choice([4, 9, 25])
+    return "reentrant", ("local depth = 0\nlocal function cmp(a, b)\n  depth = depth + 1\n  local x, y, z = a, b, depth\n"
+                         "  if depth < 4 then local t = {3, 1, 2} table.sort(t, cmp) if t[1] ~= 1 then error('inner sort') end end\n"
+                         "  local ok = pcall(function() if (a + b) %% 5 == 0 then error('skip') end end)\n"
+                         "  local s = ('ab'):gsub('%%a', function(c) local co = coroutine.wrap(function() coroutine.yield(c:upper()) end) return co() end)\n"
+                         "  depth = depth - 1\n  if x ~= a or y ~= b or s ~= 'AB' then error('corrupt') end\n  return a < b\nend\n"
+                         "local t = {} for i = 1, %d do t[i] = (i * 37) %% 23 end\ntable.sort(t, cmp)\nemit(t[1], t[2], t[#t], depth)\n"
+                         "local loaded = load(function() depth = depth + 1 if depth == 1 then return 'return 1 + ' elseif depth == 2 then return '41' end end)\nemit(loaded())\n"
+                         "emit(xpcall(function() local a = {} return a.b.c end, function(m) return (pcall(error, m)) end))\n" % n)
+
+
+def t_close(rng):
+    n = rng.choice([1, 3, 8, 40])
+    return "tbc", ("local function res(name, sink) return setmetatable({}, {__close = function(_, e) sink[#sink + 1] = name .. (e and ':err' or '') end}) end\n"
+                   "local function work(n, sink, how)\n  local a, b, c = n, n * 2, {n}\n  local r1 <close> = res('a' .. n, sink)\n"
+                   "  local r2 <close> = setmetatable({}, {__close = function() sink[#sink + 1] = a + b + c[1] end})\n"
+                   "  if how == 'err' and n == 0 then error('deep') end\n  if n == 0 then return 'leaf', a, b end\n"
+                   "  if how == 'tail' then return work(n - 1, sink, how) end\n  local x, y = work(n - 1, sink, how)\n  return x, y, a\nend\n"
+                   "for _, how in ipairs{'plain', 'tail', 'err'} do\n  local sink = {}\n  emit(how, pcall(work, %d, sink, how))\n  emit(#sink, sink[1], sink[2], sink[#sink])\nend\n"
+                   "local function failing(n) local a = n local bad <close> = setmetatable({}, {__close = function() error('in close ' .. a) end}) "
+                   "local t = {} for i = 1, n do t[i] = i end return #t, a end\n"
+                   "for i = 1, 3 do emit(pcall(failing, i)) emit(select(2, pcall(function() local x = failing(i) return x end))) end\n"
+                   "local function gen() local k <close> = setmetatable({}, {__close = function() emit('closed') end}) for i = 1, 3 do coroutine.yield(i) end end\n"
+                   "local co = coroutine.wrap(gen) emit(co(), co())\nlocal co2 = coroutine.create(gen) coroutine.resume(co2) emit(coroutine.close(co2))\n" % n)
+
+
+TEMPLATES = [t_close, t_reentrant, t_deep, t_tail, t_unwind, t_coro, t_closures, t_live, t_regsizes, t_varargs, t_gocalls]
 
 
 def rand_program(rng):
@@ -222,11 +249,15 @@ def lua_line(cid, src):
 def run(tier, seed):
     ck = vlib.Check("C14", tier, seed, level="proof")
     ok_obl = ck.obligations(PROP, clean=False)
+    if tier == "thorough" and ok_obl:
+        if not ck.coqchk(["GV.Properties.C14"]):
+            ok_obl = False
+            ck.cov["obligation_failure"] = "coqchk rejects Properties/C14.vo: " + str(ck.cov.get("coqchk", {}).get("tail", ""))[-300:]
     rng = ck.rng
 
     ck.log("obligations done")
     # ---------------- hook-level correspondence
-    gvp, err = ck.build_gvh(pkg="./cmd/gvh-pool", name="gvh-pool_verif")
+    gvp, err = ck.build_gvh(pkg="./cmd/gvh-pool", name="gvh-pool_verif", overlay=os.environ.get("VERIF_OVERLAY"))
     oracle = ck.build_oracle("pool") if gvp else None
     ndiff = 0
     pred_fail = 0
@@ -304,12 +335,16 @@ def run(tier, seed):
     # ---------------- cross-configuration
     bins = {}
     excluded = {}
-    for name, tags in CONFIGS:
-        b, err = ck.build_gvh(tags=tags, name="gvh_c14_" + "_".join(tags[1:] or ("default",)))
-        if b is None:
-            excluded[name] = err[-600:]
-        else:
-            bins[name] = b
+    from concurrent.futures import ThreadPoolExecutor
+    with ThreadPoolExecutor(max_workers=3) as ex:
+        bf = {name: ex.submit(ck.build_gvh, tags, False, "gvh_c14_" + "_".join(tags[1:] or ("default",)), "./cmd/gvh",
+                              os.environ.get("VERIF_OVERLAY")) for name, tags in CONFIGS}
+        for name, fu in bf.items():
+            b, err = fu.result()
+            if b is None:
+                excluded[name] = err[-600:]
+            else:
+                bins[name] = b
     ck.cov["configurations_built"] = sorted(bins)
     ck.cov["configurations_excluded"] = excluded
     if "default" not in bins:
@@ -334,9 +369,20 @@ def run(tier, seed):
         programs.append(rand_program(rng))
     lines = [lua_line("P%d" % i, src) for i, (_, src) in enumerate(programs)]
     outs = {}
-    from concurrent.futures import ThreadPoolExecutor
+
+    def run_config(b):
+        """all programs on one binary; gives up on a configuration after 8 crashes/hangs (a broken pool can hang every program)"""
+        res, bad = [], 0
+        for a in range(0, len(lines), 60):
+            chunk = vlib.run_lines_resilient(b, ["lua"], lines[a:a + 60], 20)
+            res += chunk
+            bad += sum(1 for o in chunk if o.split(" ")[1:2] in (["HANG"], ["CRASH"]))
+            if bad >= 8:
+                res += ["%s SKIPPED" % l.split(" ", 1)[0] for l in lines[len(res):]]
+                break
+        return res
     with ThreadPoolExecutor(max_workers=len(bins)) as ex:
-        futs = {name: ex.submit(vlib.run_lines_resilient, b, ["lua"], lines, 60) for name, b in bins.items()}
+        futs = {name: ex.submit(run_config, b) for name, b in bins.items()}
         for name, fu in futs.items():
             outs[name] = fu.result()
     ck.log("%d programs run on %d configurations" % (len(programs), len(bins)))
@@ -349,6 +395,8 @@ def run(tier, seed):
         status = base[i].split(" ")[1] if " " in base[i] else "?"
         ck.count("status:" + status)
         ck.case(src, status in ("ok", "error"))
+        if status == "SKIPPED":
+            continue
         if status in ("CRASH", "HANG", "gopanic"):
             cross_fail += 1
             if cross_fail <= 3:
@@ -365,6 +413,8 @@ def run(tier, seed):
             if name == "default":
                 continue
             o = outs[name][i] if i < len(outs[name]) else "<missing>"
+            if o.endswith(" SKIPPED"):
+                continue
             if o != base[i]:
                 cross_fail += 1
                 ck.count("cross-difference:" + name)
@@ -404,12 +454,12 @@ def replay(path, seed):
     ck = vlib.Check("C14", "quick", seed)
     if r.get("engine") == "lua":
         for name, tags in CONFIGS:
-            b, _ = ck.build_gvh(tags=tags, name="gvh_c14_" + "_".join(tags[1:] or ("default",)))
+            b, _ = ck.build_gvh(tags=tags, name="gvh_c14_" + "_".join(tags[1:] or ("default",)), overlay=os.environ.get("VERIF_OVERLAY"))
             if b:
                 out = vlib.run_lines_resilient(b, ["lua"], [lua_line("r", r["source"])])
                 print("%-22s %s" % (name, out[0][:600]))
         return 0
-    gvp, _ = ck.build_gvh(pkg="./cmd/gvh-pool", name="gvh-pool_verif")
+    gvp, _ = ck.build_gvh(pkg="./cmd/gvh-pool", name="gvh-pool_verif", overlay=os.environ.get("VERIF_OVERLAY"))
     oracle = ck.build_oracle("pool")
     mode = r.get("engine", "pool/reg").split("/")[1]
     line = r.get("history") or r.get("first", {}).get("history")
